@@ -295,7 +295,7 @@ def main(argv=None):
                      occurrences=v['count'], replay=v['replay']), f, indent=1, default=str)
     print(f'VIOLATION property={pid} replay={path}')
     print(f'  signature={v["sig"]} occurrences={v["count"]}: {v["what"][:400]}')
-    rc = 1 if rc == 0 else rc
+    rc = 1          # a reported violation always exits 1 (harness errors alone exit 2)
   path = write_evidence(ctx, wall, len(new), len(seen_known))
   print(f'[{pid} {args.tier} seed={args.seed}] states={ctx.states} transitions={ctx.trans} '
         f'executions={ctx.evals} distinct_nontrivial={len(ctx.nontrivial)} '
